@@ -143,6 +143,7 @@ func runC13(c *eng.Ctx) {
 	runC13Waiters(c, next)
 	runC13Reentrant(c, next)
 	runNestedCreate(c, "C13", next)
+	runRootHandleChildren(c, "C13", next)
 	if core.C13Web != nil {
 		core.C13Web(c, next)
 	}
